@@ -6,6 +6,7 @@
    (mpn_rootrem_internal is static: reached with un >= ROOTREM_THRESHOLD). -/
 import Mpir.Proto
 import Mpir.Model.Rootrem
+import Mpir.Model.SqrtremLimb
 namespace Mpir.Ops.Rootrem
 open Mpir Mpir.Root Mpir.Rootrem
 
@@ -24,6 +25,14 @@ def handle : Handler
           let xnb := (bitLen a - 1) / k + 1
           let xn := (xnb + 63) / 64
           some (chk (x == t && r == a - powS t k) [.vec (toLimbs xn x), .vec rl, natTok rl.length])
+  | "mpn_sqrtrem_dc", [.vec u] =>
+      -- LIMB-LEVEL model of mpn_dc_sqrtrem (Model/SqrtremLimb.lean); asserted equal to Nat.sqrt
+      let a := val u
+      let tn := u.length / 2
+      let (s, r) := SqrtL.sqrtremEvenL tn a
+      if r < 0 then some [.err "negrem"] else
+      let rl := natLimbs r.toNat
+      some (chk (s == Nat.sqrt a && r.toNat == a - s * s) [.vec (toLimbs tn s), .vec rl, natTok rl.length])
   | "mpn_rootrem_i", [.vec u, .num k] => rr u k.toNat false
   | "mpn_rootrem_i_norem", [.vec u, .num k] => rr u k.toNat true
   | _, _ => none
